@@ -102,6 +102,11 @@ func init() {
 					}
 				}
 			}
+			// the zoom-0 world: the single voxel 0/0/0/0 alone (against itself and against the empty
+			// list). It reaches 2^25 m, beyond the +-2^24 m the single-zoom form is documented for, so
+			// its answers against finer voxels are not judged (the unchanged library answers true
+			// against voxels just below ground there).
+			spWorlds = append(spWorlds, sw{"0/0/0/0", []ref.Vox{{H: 0, X: 0, Y: 0, V: 0, F: 0}}})
 			listAlpha := func(vox []ref.Vox, k int) []ref.Vox {
 				// k voxels spread over the world: root, a child, a grandchild, the twin side, an ancestor
 				var r []ref.Vox
